@@ -51,7 +51,9 @@ fn go(c: &Sx) -> Option<Sx> {
             let d = if a >= b { a - b } else { b - a };
             let dd = (d as u128) * (d as u128);
             Some(Sx::L(vec![
-                f32_sx((fa - fb).powf(2.0)),
+                f32_sx((fa - fb).powf(2.0)),                            // as the compiler builds the source expression
+                f32_sx((fa - fb).powf(std::hint::black_box(2.0f32))),   // libm's powf
+                f32_sx((fa - fb) * (fa - fb)),
                 f32_sx(dd as f32),
                 f32_sx(fa + fb),
                 f32_sx(sum as f32),
